@@ -81,9 +81,97 @@ def check_c04(prog, rnd):
     return None, text2
 
 
+def vocabulary_sweep():
+    """EXHAUSTIVE over the vocabulary: every mnemonic x every register operand position x every register number x every
+    spelling of that register (xN and all ABI names), mnemonic in lower / upper case, immediates in decimal, hex, binary
+    and negative -- each as one line, the other operands fixed; 120 lines per assembled program.
+    -> list of (description, text) for lines whose instruction is not the one the syntax denotes"""
+    bad = []
+    lines, items = [], []
+
+    def flush():
+        if not items:
+            return
+        prog = Program(list(items), [], False, False)
+        expected, _, _, _ = expand(prog)
+        text = "\n".join(lines) + "\n"
+        try:
+            got = imem(load(text))
+            m = matches(expected, got)
+        except Exception as e:
+            m = "load failed: %s: %s" % (type(e).__name__, str(e)[:80] or repr(e)[:80])
+        if m:
+            # locate the offending line for the report
+            idx = None
+            for i, (a, mn, f) in enumerate(expected):
+                if ("at %d" % a) in m:
+                    idx = i
+            bad.append(("vocabulary sweep: %s   [line: %s]" % (m, lines[idx] if idx is not None else "?"), text if idx is None else lines[idx] + "\n"))
+        del lines[:]
+        del items[:]
+
+    def add(mn, fields, line, target=None):
+        it = Item("instr", mn=mn, fields=fields)
+        if target is not None:
+            it.target = target
+        items.append(it)
+        lines.append(line)
+        if len(items) >= 120:
+            flush()
+    spell = {n: ["x%d" % n] + ABI_BY_NUM.get(n, []) for n in range(32)}
+    imms = [("5", 5), ("0x7ff", 2047), ("-2048", -2048), ("0b101", 5), ("-0x10", -16), ("0", 0)]
+    k = 0
+    for n in range(32):
+        for sp in spell[n]:
+            k += 1
+            up = k % 2 == 0
+            for mn in R_TYPE:
+                m = mn.upper() if up else mn
+                add(mn, {"rd": n, "rs1": 6, "rs2": 7}, "%s %s, x6, x7" % (m, sp))
+                add(mn, {"rd": 5, "rs1": n, "rs2": 7}, "%s x5, %s, x7" % (m, sp))
+                add(mn, {"rd": 5, "rs1": 6, "rs2": n}, "%s x5, x6, %s" % (m, sp))
+            for j, mn in enumerate(I_TYPE + ["jalr"]):
+                m = mn.upper() if up else mn
+                t, v = imms[(k + j) % len(imms)]
+                add(mn, {"rd": n, "rs1": 6, "imm": v}, "%s %s, x6, %s" % (m, sp, t))
+                add(mn, {"rd": 5, "rs1": n, "imm": v}, "%s x5, %s, %s" % (m, sp, t))
+            for j, mn in enumerate(SHIFT):
+                m = mn.upper() if up else mn
+                sh = [0, 1, 31, 17][(k + j) % 4]
+                add(mn, {"rd": n, "rs1": 6, "imm": sh}, "%s %s, x6, %d" % (m, sp, sh))
+                add(mn, {"rd": 5, "rs1": n, "imm": sh}, "%s x5, %s, %s" % (m, sp, hex(sh)))
+            for j, mn in enumerate(LOAD):
+                m = mn.upper() if up else mn
+                t, v = imms[(k + j + 1) % len(imms)]
+                add(mn, {"rd": n, "rs1": 6, "imm": v}, "%s %s, %s(x6)" % (m, sp, t))
+                add(mn, {"rd": 5, "rs1": n, "imm": v}, "%s x5, %s(%s)" % (m, t, sp))
+                add(mn, {"rd": 5, "rs1": n, "imm": v}, "%s x5, %s, %s" % (m, sp, t))
+            for j, mn in enumerate(STORE):
+                m = mn.upper() if up else mn
+                t, v = imms[(k + j + 2) % len(imms)]
+                add(mn, {"rs2": n, "rs1": 6, "imm": v}, "%s %s, %s(x6)" % (m, sp, t))
+                add(mn, {"rs2": 5, "rs1": n, "imm": v}, "%s x5, %s(%s)" % (m, t, sp))
+                add(mn, {"rs2": n, "rs1": 6, "imm": v}, "%s %s, x6, %s" % (m, sp, t))
+            for j, mn in enumerate(U_TYPE):
+                m = mn.upper() if up else mn
+                t, v = [("1", 1), ("0x7ffff", 0x7FFFF), ("0xfffff", 0xFFFFF), ("0x80000", 0x80000), ("0", 0)][(k + j) % 5]
+                add(mn, {"rd": n, "imm": v}, "%s %s, %s" % (m, sp, t))
+            for j, mn in enumerate(BRANCH):
+                m = mn.upper() if up else mn
+                off = [8, -8, 4094, -4096, 0][(k + j) % 5]
+                add(mn, {"rs1": n, "rs2": 7}, "%s %s, x7, %d" % (m, sp, off), ("num", off))
+                add(mn, {"rs1": 6, "rs2": n}, "%s x6, %s, %d" % (m, sp, off), ("num", off))
+            add("jal", {"rd": n}, "%s %s, %d" % ("JAL" if up else "jal", sp, 4 * k), ("num", 4 * k))
+    flush()
+    return bad
+
+
 def run_c04(tier, seed):
     rnd = random.Random(seed + 4)
     evals, seen, viol, samples = 0, set(), [], []
+    for what, text in vocabulary_sweep()[:5]:
+        viol.append({"key": "C04:" + what[:80], "what": what, "text": text})
+    evals += 1
     gens = [small_programs()]
     n_rand = 700 if tier == "quick" else 40000
 
@@ -101,7 +189,7 @@ def run_c04(tier, seed):
         if not bad and nontrivial and len(samples) < 2 and len(text) < 400:
             samples.append({"text": text})
     return {"evaluations": evals, "distinct_nontrivial": len(seen), "violations": viol, "samples": samples,
-            "rule": "program ASTs: exhaustive over sequences of <= 3 items from a 12-template alphabet x all placements of one label (in-line on each item incl. expanding pseudo-instructions, stand-alone before each item and at the end), plus seeded random ASTs up to 30 lines; each AST is rendered twice (plain / randomised register spelling, mnemonic case, number base, comments, blank lines, indentation, operand form); non-trivial = contains a label or a pseudo-instruction; distinct by AST shape",
+            "rule": "vocabulary sweep: every mnemonic x register operand position x register number x spelling (xN and every ABI name), both mnemonic cases, immediates in every base -- exhaustive; program ASTs: exhaustive over sequences of <= 3 items from a 12-template alphabet x all placements of one label (in-line on each item incl. expanding pseudo-instructions, stand-alone before each item and at the end), plus seeded random ASTs up to 30 lines; each AST is rendered twice (plain / randomised register spelling, mnemonic case, number base, comments, blank lines, indentation, operand form); non-trivial = contains a label or a pseudo-instruction; distinct by AST shape",
             "bound": "<= 30 source lines", "contract": "instruction memory == denotation of the AST at consecutive addresses from 0; both renderings load identically"}
 
 
